@@ -13,6 +13,8 @@ func runC02(tier string, seed uint64, o *Out) error {
 		ncases = 30000
 	}
 	sizes := []int64{5, 10, 1000}
+	nestLate = true // a watermark delivery inside the late-update callback of some late rows
+	defer func() { nestLate = false }()
 	for i := 0; i < ncases; i++ {
 		size := sizes[rng.Intn(len(sizes))]
 		c := twCfg{size: size}
@@ -45,6 +47,10 @@ func runC02(tier string, seed uint64, o *Out) error {
 			return err
 		}
 		obs := runWin(w, ops, false)
+		if obs == skipObs {
+			o.Count("not compared: several late updates around a nested delivery")
+			continue
+		}
 		o.Line("C02 T %d %d %d %d # %s # %s", c.size, c.ooo, c.late, harnessBase, opsString(ops), obs)
 		o.Count(fmt.Sprintf("tumbling late=%d", c.late/size))
 	}
